@@ -83,6 +83,12 @@ func (f *Fetcher) exchangeKeys(ctx context.Context) error {
 		if err != nil {
 			return err
 		}
+		defer func() {
+			err := conn.Close()
+			if err != nil {
+				f.Log.LogAttrs(ctx, slog.LevelInfo, "failed to close connection", slog.Any("error", err))
+			}
+		}()
 
 		err = exchangeDataTLS(ctx, f.Log, conn, &f.data)
 		if err != nil {
